@@ -280,4 +280,36 @@ def solve_steps(ctx, rng, idx):
         adv = it["main"]["t1"] - it["main"]["t0"]
         mn = float(np.min(cell_dt))
         ctx.close(cls + ":increment", abs(adv - mn) / (mn + 1e9 * 64 * np.spacing(abs(it["main"]["t0"]) + mn)), 1e-9, "solve/time-increment-not-min-cell-time-step", {"advance": adv, "min": float(np.min(cell_dt))}, cls=cls)
+    # "each cell's own value" is what ADVANCES the cell, not only what is handed to step(): the update of the last iteration is
+    # recomputed with one time step per cell -- forward Euler: dQ_i = dt_i R_i; implicit / Crank-Nicolson: the linearised system
+    # (D - theta J) dQ = R with D = diag(1/dt of the cell of each unknown) and J the Jacobian the integrator holds after that step
+    its = log.iterations()
+    if dtlocal and its and iname in ("explicit", "implicit", "cranknicolson") and all(np.all(np.isfinite(d)) for d in its[-1]["main"]["data"]):
+        frm, new = its[-1]["from"], its[-1]["main"]["data"]
+        neq, n = s.model.neq, s.mesh.ncell
+        with probes.quiet():
+            ff = ffield.fdata(s.model, s.mesh, frm["data"], t=frm["time"])
+            cell_dt = np.asarray(s.disc.calc_timestep(ff, cfl), float)
+            R = [np.array(r, float, copy=True) for r in s.disc.rhs(ff)]
+        if np.all(np.isfinite(cell_dt)) and all(np.all(np.isfinite(r)) for r in R):
+            if iname == "explicit":
+                exp = [cell_dt * R[q] for q in range(neq)]
+            else:
+                th = 1.0 if iname == "implicit" else 0.5
+                J = np.array(solver.jacobian, float)
+                rhs_ = np.zeros(n * neq)
+                for q in range(neq):
+                    rhs_[q::neq] = R[q]
+                try:
+                    M_ = np.diag(np.repeat(1.0 / cell_dt, neq)) - th * J
+                    sol = np.linalg.solve(M_, rhs_)
+                    exp = [sol[q::neq] for q in range(neq)] if np.linalg.cond(M_) < 1e8 else None
+                except np.linalg.LinAlgError:
+                    exp = None
+            if exp is not None:
+                for q in range(neq):
+                    got = np.asarray(new[q], float) - np.asarray(frm["data"][q], float)
+                    # (the update is a difference of two states: a few ulps of the state are part of it -- acoustic data)
+                    sc = np.max(np.abs(exp[q])) + 1e9 * np.finfo(float).eps * np.max(np.abs(frm["data"][q])) + 1e-300
+                    ctx.close("solve:local:update", float(np.max(np.abs(got - exp[q])) / sc), 1e-8, "solve/local-time-steps/cell-not-advanced-with-its-own-time-step/%s" % iname, {"eq": q}, cls="solve:local")
     ctx.nontrivial("solve", iname, dtlocal, cfl, s.desc())
